@@ -108,6 +108,11 @@ def family(tier):
                                                                     ("get", "X.e", "po")],
                                                               "1": [("set", "A.e", "mi")]}})],
         conns=[aconn("A", "M")])))
+    # requests of a simulator towards its OWN entities (no connection of a simulator to itself)
+    out.append(("neg_self", dict(
+        until=2, sims=[T("A"), T("M", 1, **{"async": {"0": [("set", "M.e", "mi"), ("get", "M.e", "po")],
+                                                      "1": [("set", "A.e", "mi")]}})],
+        conns=[aconn("A", "M")])))
     out.append(("neg_wrong_direction", dict(
         until=2, sims=[T("A"), T("M", 1), T("Q", 1, **{"async": {"0": [("set", "M.e", "mi")]}})],
         conns=[aconn("A", "M"), dict(src="M", dst="Q", sattr="po", dattr="mi")])))
